@@ -425,62 +425,3 @@ func (a *c09) angleUnits() {
 }
 
 // ---------------------------------------------------------------- R4
-
-func (a *c09) twoDHop() {
-	c := a.c
-	nt := c.P.Method("proj", "SR", "NewTransform")
-	fd := c.P.Decl(nt)
-	if fd == nil {
-		c.Unk("C09.R4", "proj.(*SR).NewTransform", token.NoPos, "API anchor does not resolve")
-		return
-	}
-	// the datum shift: package function taking two *datum and three floats
-	var shift *types.Func
-	for _, fn := range c.P.RepoFuncs() {
-		if c.P.DeclPkg(fn) != a.p {
-			continue
-		}
-		sig := fn.Type().(*types.Signature)
-		if sig.Recv() == nil && sig.Params().Len() == 5 && sig.Results().Len() == 4 {
-			if _, ok := sig.Params().At(0).Type().(*types.Pointer); ok {
-				shift = fn
-			}
-		}
-	}
-	if shift == nil {
-		c.Unk("C09.R4", "proj#datum-shift", token.NoPos, "datum shift function not found")
-		return
-	}
-	for i, lit := range funcLits(fd.Body) {
-		cons := fmt.Sprintf("proj.(*SR).NewTransform$%d#hop", i+1)
-		var hop *ast.CallExpr
-		var second *ast.CallExpr
-		ast.Inspect(lit.Body, func(n ast.Node) bool {
-			call, ok := n.(*ast.CallExpr)
-			if !ok {
-				return true
-			}
-			if t := a.info.TypeOf(call.Fun); t != nil && isTransformerType(t) && len(call.Args) == 2 {
-				// a nested 2-D transformer obtained from NewTransform inside this closure
-				if o := objOf(a.info, call.Fun); o != nil && lit.Pos() <= o.Pos() && o.Pos() <= lit.End() && hop == nil {
-					// … whose value comes from NewTransform (a full pipeline with its own datum shift)
-					sc := newFnScope(a.info, lit.Body)
-					for _, d := range sc.defs[o] {
-						if dc, ok := unparen(d).(*ast.CallExpr); ok && d != nil && callee(a.info, dc) == nt {
-							hop = call
-						}
-					}
-				}
-			}
-			if callee(a.info, call) == shift && hop != nil && call.Pos() > hop.Pos() {
-				second = call
-			}
-			return true
-		})
-		if hop != nil && second != nil {
-			c.Bad("C09.R4", cons, hop.Pos(), "the intermediate WGS84 hop `%s` goes through a 2-argument Transformer, so the ellipsoidal height produced by the first datum shift is dropped before `%s` applies the second one (proj4js carries point.z through both shifts)", src(hop), src(second.Fun))
-		} else {
-			c.OK("C09.R4", cons, lit.Pos(), "at most one datum shift per 2-D pass")
-		}
-	}
-}
